@@ -284,6 +284,7 @@ class State:
         self.cond_defs = {}       # chunk id -> (cond term, thunk -> segs when true)  [empty when false]
         self.cond_seen = {}       # chunk id -> len(pc) at the last undetermined check
         self.decided = {}         # id of a decided condition term -> its value on this path
+        self.bit_origin = {}      # id of an integer term -> (bits LSB first, sign Bool): its two's complement reading
         self.keep = []            # keep z3 terms alive (ids are reused otherwise)
         self.pack_cache = {}
         self.str_lits = {}
@@ -440,8 +441,9 @@ class State:
         return out
 
     # -- conditional chunks: present ? <definition> : empty
-    def cond_chunk(self, term, cond, thunk):
-        """The chunk `term` is the octets thunk() when cond holds and empty otherwise."""
+    def cond_chunk(self, term, cond, thunk, length=None):
+        """The chunk `term` is the octets thunk() when cond holds and empty otherwise.
+        length: the length of thunk() as a term (stated up front, without evaluating the definition)."""
         c = self.new_chunk(term=term)
         if c.key() not in self.cond_defs and c.key() not in self.refine:
             if isinstance(cond, bool):
@@ -449,6 +451,8 @@ class State:
             else:
                 self.cond_defs[c.key()] = (cond, thunk)
                 self.assume(z3.Implies(z3.Not(cond), c.len == 0))
+                if length is not None:
+                    self.assume(z3.Implies(cond, c.len == I(length)))
         return c
 
     def known(self, cond):
@@ -584,12 +588,24 @@ class State:
         self.refine_chunk(chunk, bs + [rest])
         return bs, rest
 
-    def split_at(self, segs, pos, tag='split'):
+    def split_at(self, segs, pos, tag='split', prefer='left'):
         """Split an (expanded) segment list at byte position pos (int or z3
-        term, already clamped to 0..len).  Returns (left, right)."""
+        term, already clamped to 0..len).  Returns (left, right).  With
+        conditional chunks in the rope, a boundary that is *provably* the position
+        is used as it is (prefer: which one if several coincide), so that the
+        chunks are not decided just to locate the cut."""
         segs = self.expand(segs)
         if isinstance(pos, SInt):
             pos = pos.t
+        if any(isinstance(x, Chunk) and x.key() in self.cond_defs and x.key() not in self.refine for x in segs):
+            offs = [z3.IntVal(0)]
+            for x in segs:
+                offs.append(z3.simplify(offs[-1] + (x.len if isinstance(x, Chunk) else 1)))
+            pt = I(pos)
+            order = range(len(offs)) if prefer == 'left' else range(len(offs) - 1, -1, -1)
+            for i in order:
+                if self.must(pt == offs[i]):
+                    return list(segs[:i]), list(segs[i:])
         if isinstance(pos, int):
             # fast path: walk concrete-length prefix
             left = []
@@ -667,16 +683,16 @@ class State:
         lo = 0 if lo is None else self.clamp_index(lo, length, tag + ':lo')
         hi = length if hi is None else self.clamp_index(hi, length, tag + ':hi')
         if not (isinstance(lo, int) and lo == 0):
-            # empty slice when hi <= lo
+            # empty slice when hi < lo (hi == lo is handled structurally: zero-length chunks at the cut are kept)
             if not (isinstance(hi, int) and isinstance(lo, int)):
-                if self.branch(I(hi) <= I(lo), tag + ':empty'):
+                if self.branch(I(hi) < I(lo), tag + ':empty'):
                     return self.mk_bytes([], rope.mutable)
-            elif hi <= lo:
+            elif hi < lo:
                 return self.mk_bytes([], rope.mutable)
         if hi is length or (isinstance(hi, int) and isinstance(length, int) and hi == length):
             mid = segs
         else:
-            mid, _ = self.split_at(segs, hi, tag + ':hi')
+            mid, _ = self.split_at(segs, hi, tag + ':hi', prefer='right')
         if isinstance(lo, int) and lo == 0:
             res = mid
         else:
@@ -699,7 +715,7 @@ class State:
                 it = it + I(length)
         if self.branch(z3.Or(it < 0, it >= I(length)), tag + ':range'):
             raise Raised(IndexError, ('index out of range',))
-        _, right = self.split_at(segs, mk_int(it), tag)
+        _, right = self.split_at(segs, mk_int(it), tag, prefer='right')
         right = self.expand(right)
         # drop empty chunks in front, then take one byte
         while right:
@@ -798,6 +814,14 @@ class State:
                         i += 1
                         j += 1
                         continue
+                    if x.key() in self.cond_defs and y.key() in self.cond_defs and \
+                            x.key() not in self.refine and y.key() not in self.refine:
+                        # two conditional chunks: same condition, and equal definitions under it
+                        (c1, th1), (c2, th2) = self.cond_defs[x.key()], self.cond_defs[y.key()]
+                        if self.must(c1 == c2) and self._defs_equal_under(c1, th1, th2):
+                            i += 1
+                            j += 1
+                            continue
                     if self.must(x.len == y.len):
                         conj.append(x.t == y.t)
                         i += 1
@@ -817,6 +841,15 @@ class State:
             lb = self.rope_len_term(SBytes(sb))
             return z3.And(conj + [la == lb]), False
         return (z3.And(conj) if conj else z3.BoolVal(True)), True
+
+    def _defs_equal_under(self, cond, th1, th2):
+        if not self.can(cond):
+            return True
+        from .contract import scope
+        with scope(self):
+            self.assume(cond)
+            t, exact = self.rope_eq(th1(), th2())
+            return exact and self.must(t)
 
     # ------------------------------------------------------------ strings
     def str_facts(self, t):
@@ -948,6 +981,38 @@ class State:
         self.pack_cache[key] = bs
         return bs
 
+    def from_bytes(self, bs, signed):
+        """Big-endian reading of byte atoms, remembering the bits of the value
+        (bit operations on it are then syntactic: no new decomposition, no range queries)."""
+        bs = list(bs)
+        v = self.unpack_sint(bs) if signed else self.unpack_uint(bs)
+        if isinstance(v, SInt):
+            bits = []
+            for a in reversed(bs):                   # last octet is least significant
+                bits.extend(self.bits_of(a, 8) if not isinstance(a, int)
+                            else [z3.BoolVal(bool((a >> k) & 1)) for k in range(8)])
+            if signed:
+                self.set_bits(v, bits[:-1], bits[-1])
+            else:
+                self.set_bits(v, bits, z3.BoolVal(False))
+        return v
+
+    def set_bits(self, v, bits, sign):
+        """Record value(v) == sum_k 2^k bits[k] - 2^len(bits) * sign (two's complement)."""
+        if isinstance(v, SInt):
+            self.bit_origin[v.t.get_id()] = (list(bits), sign)
+            self.keep.append(v.t)
+        return v
+
+    def get_bits(self, v):
+        if isinstance(v, SInt):
+            return self.bit_origin.get(v.t.get_id())
+        if isinstance(v, SBool):
+            return [v.t], z3.BoolVal(False)
+        if z3.is_expr(v):
+            return self.bit_origin.get(v.get_id())
+        return None
+
     @staticmethod
     def unpack_uint(bs):
         w = len(bs)
@@ -980,6 +1045,18 @@ class State:
         self.assume(t == z3.Sum([z3.If(bits[k], 2 ** k, 0) for k in range(width)]))
         self.pack_cache[key] = bits
         return bits
+
+    def byte_from_bits(self, bits, base='octet'):
+        """An octet defined by its eight bits (LSB first; python bools or z3 Bools)."""
+        bits = [z3.BoolVal(b) if isinstance(b, bool) else b for b in bits]
+        assert len(bits) == 8
+        if all(z3.is_true(b) or z3.is_false(b) for b in bits):
+            return sum((1 << k) for k, b in enumerate(bits) if z3.is_true(b))
+        a = self.fresh_int(base)
+        self.assume(z3.And(a >= 0, a <= 255, a == z3.Sum([z3.If(bits[k], 2 ** k, 0) for k in range(8)])))
+        self.pack_cache[('bits', 8, a.get_id())] = bits
+        self.keep.append(a)
+        return a
 
     def width_for(self, x, tag='width'):
         """Smallest of 8/16/32/64 with 0 <= x < 2^w provable; None if x may be
